@@ -54,6 +54,7 @@ var vfS3 struct {
 	sigs      []vfSigRowS
 	keys      []vfKeyRowS
 	flagged   int
+	maxKeys   uint64
 }
 
 type vfMessagingS struct {
@@ -170,7 +171,7 @@ type vfCoreCfgS struct{ addr common.Address }
 
 func (c vfCoreCfgS) GetAddress() common.Address      { return c.addr }
 func (c vfCoreCfgS) GetInstanceID() uint64           { return vfS3.instance }
-func (c vfCoreCfgS) GetMaxNumKeysPerMessage() uint64 { return 4 }
+func (c vfCoreCfgS) GetMaxNumKeysPerMessage() uint64 { return vfS3.maxKeys }
 
 //verif:stub (*github.com/shutter-network/rolling-shutter/rolling-shutter/keyper/database.Queries).GetBatchConfig sql=getBatchConfig
 func vfStubBatchConfigS3(q *corekeyperdatabase.Queries, ctx context.Context, idx int32) (corekeyperdatabase.TendermintBatchConfig, error) {
@@ -208,9 +209,12 @@ func vfS3Setup(n int) {
 	g.eon, g.instance, g.eonPK = vfU64("eon"), vfU64("instance"), vfU64("eonpk")
 	vfAssume(g.eon < 1<<31)
 	g.sigs, g.keys, g.flagged = nil, nil, 0
+	g.maxKeys = vfU64("max-keys-per-message")
+	vfAssume(g.maxKeys >= 1 && g.maxKeys <= 4)
 }
 
 func vfIdentitiesS(k int) []identitypreimage.IdentityPreimage {
+	vfAssume(uint64(k) <= vfS3.maxKeys)
 	var ids []identitypreimage.IdentityPreimage
 	for i := 0; i < k; i++ {
 		id := identitypreimage.IdentityPreimage(vfBytesN("identity", 32))
@@ -247,7 +251,7 @@ func vfServiceConfig(keyTag uint64) *Config {
 	return &Config{
 		InstanceID:           vfS3.instance,
 		Chain:                &ChainConfig{Node: &configuration.EthnodeConfig{PrivateKey: &keys.ECDSAPrivate{Key: &ecdsa.PrivateKey{D: new(big.Int).SetUint64(keyTag)}}}},
-		MaxNumKeysPerMessage: 4,
+		MaxNumKeysPerMessage: vfS3.maxKeys,
 	}
 }
 
